@@ -57,7 +57,7 @@ from gen_netlist import fs, rv, sv
 warnings.filterwarnings('ignore')
 
 BRANCH_TYPES = ('L', 'V', 'E', 'H', 'TF', 'GY', 'TR', 'AM')
-HELPERS = ['Lcapy/Proofs/TimeDomain.lean', 'Lcapy/Proofs/TimeDomainInj.lean', 'Lcapy/Proofs/TimeDomainInjReal.lean', 'Lcapy/Spec/LawsT.lean', 'Lcapy/Model/TimeDomain.lean', 'Lcapy/Driver/C02.lean',
+HELPERS = ['Lcapy/Proofs/TimeDomain.lean', 'Lcapy/Proofs/TimeDomainInj.lean', 'Lcapy/Proofs/TimeDomainInjReal.lean', 'Lcapy/Proofs/TimeDomainAnchor.lean', 'Lcapy/Spec/LawsT.lean', 'Lcapy/Model/TimeDomain.lean', 'Lcapy/Driver/C02.lean',
            'Lcapy/Spec/Laws.lean', 'Lcapy/Spec/Signal.lean', 'Lcapy/Model/ExpPoly.lean', 'Lcapy/Model/ILT.lean',
            'Lcapy/Proofs/Laplace.lean', 'Lcapy/Proofs/LaplaceILT.lean', 'Lcapy/Model/Netlist.lean', 'Lcapy/Model/MNA.lean']
 
@@ -1025,7 +1025,7 @@ def gen_case(rng):
 # --------------------------------------------------------------------------- the check
 
 def run(chk, replay=None):
-    broken = chk.lean(['Lcapy/Props/C02.lean', 'Lcapy/Props/C02Inj.lean'], helper_files=HELPERS, leanchecker=(chk.tier == 'thorough'))
+    broken = chk.lean(['Lcapy/Props/C02.lean', 'Lcapy/Props/C02Inj.lean', 'Lcapy/Props/NonVacuityC02.lean'], helper_files=HELPERS, leanchecker=(chk.tier == 'thorough'))
     chk.coverage['trusted_base'] = chk.coverage['trusted_base'] + [
         'the harness canonicaliser c02.TCanon / c10.Canon (SymPy time-domain expression -> formal signal items; a term without '
         'Heaviside factor in a result without the t >= 0 condition is read as valid on the whole time axis)',
@@ -1036,6 +1036,10 @@ def run(chk, replay=None):
         'is proved: C02.response_unique); Lcapy keeps step sources unshifted in the converted circuit, so only step sources are used',
         'two switches at different instants: the state at the second instant is evalAt of the law-checked response of the interval between '
         'the instants, which the harness starts from the (stand-in valued) state at the first instant',
+        'td.laws is the model function tdCheck (rewrites capControl / smooth reading + node-range and coupling checks + checkLawsT), sound by '
+        'C02.tdCheck_sound for the problem tdProblem it is decided on; that a capacitor-controlled CCVS MEANS capacitor + series ammeter + CCVS '
+        '(tdProblem) is a spec-level definition; the theorems are over fields, the driver carrier GQ is the Gaussian rationals plus an error value '
+        '(no transfer lemma: audit X1/F1)',
         'the gyrator input-branch current is not exposed by Lcapy: it is defined from V(n1,n2) = -r i and then only KCL tests it',
         'the C01 netlist front-end (Model/Netlist.lean) that both the time-domain spec check and the s-domain model use',
         'the multiplicative stand-in for exp of rational constants (Driver/C09.lean mkE, c09.Sampler)']
